@@ -43,6 +43,13 @@ pub trait GcManaged {
     fn mark(&self);
 
     fn blacken(&self);
+
+    /// Address range of memory owned by this object that raw pointers held elsewhere may point
+    /// into (a fiber's value stack); used by the verification quarantine only.
+    #[cfg(feature = "verif_hooks")]
+    fn verif_dead_range(&self) -> Option<(usize, usize)> {
+        None
+    }
 }
 
 type GcBoxPtr<T> = NonNull<GcBox<T>>;
@@ -499,6 +506,11 @@ impl<T: GcManaged> GcManaged for RefCell<T> {
     fn blacken(&self) {
         self.borrow().blacken();
     }
+
+    #[cfg(feature = "verif_hooks")]
+    fn verif_dead_range(&self) -> Option<(usize, usize)> {
+        self.try_borrow().ok().and_then(|b| b.verif_dead_range())
+    }
 }
 
 impl<T: GcManaged> GcManaged for Vec<T> {
@@ -605,6 +617,7 @@ pub mod verif {
         events: Vec<Event>,
         event_count: usize,
         quarantine: Vec<Pin<Box<GcBox<dyn GcManaged>>>>,
+        dead_ranges: Vec<(usize, usize)>,
         swept_objects: usize,
         collections: usize,
         heap_bytes: usize,
@@ -623,6 +636,7 @@ pub mod verif {
             events: Vec::new(),
             event_count: 0,
             quarantine: Vec::new(),
+            dead_ranges: Vec::new(),
             swept_objects: 0,
             collections: 0,
             heap_bytes: 0,
@@ -688,8 +702,30 @@ pub mod verif {
 
     /// Really frees everything held in quarantine.
     pub fn purge() {
-        let q = STATE.with(|s| mem::take(&mut s.borrow_mut().quarantine));
+        let q = STATE.with(|s| {
+            let mut s = s.borrow_mut();
+            s.dead_ranges.clear();
+            mem::take(&mut s.quarantine)
+        });
         drop(q);
+    }
+
+    /// Records an event if `addr` lies inside memory owned by a swept (quarantined) object.
+    pub fn check_raw(addr: usize, what: &'static str) {
+        STATE.with(|s| {
+            if let Ok(mut s) = s.try_borrow_mut() {
+                if s.dead_ranges.iter().any(|(lo, hi)| addr >= *lo && addr < *hi) {
+                    s.event_count += 1;
+                    if s.events.len() < 64 {
+                        let during_gc = s.in_gc;
+                        s.events.push(Event {
+                            type_name: what,
+                            during_gc,
+                        });
+                    }
+                }
+            }
+        });
     }
 
     /// Number of live objects per type name and their summed shallow sizes, from the object list.
@@ -794,6 +830,9 @@ pub mod verif {
                     s.swept_objects += 1;
                     if s.quarantine_on {
                         obj.verif_meta.freed.set(true);
+                        if let Some(range) = obj.data.verif_dead_range() {
+                            s.dead_ranges.push(range);
+                        }
                         s.quarantine.push(obj);
                         continue;
                     }
